@@ -4,7 +4,10 @@ use std::{
     marker::PhantomData,
 };
 
+#[cfg(not(feature = "verif_hooks"))]
 use parking_lot::RwLockReadGuard;
+#[cfg(feature = "verif_hooks")]
+use rawdb::verif::RwLockReadGuard;
 use rawdb::{Region, RegionMetadata};
 
 use crate::{AnyStoredVec, BUFFER_SIZE, HEADER_OFFSET, VecIndex, VecValue, likely};
